@@ -71,6 +71,12 @@ func NewRun(property, tier, level, engine string) *Run {
 	r := &Run{Property: property, Tier: tier, Level: level, Engine: engine, start: time.Now(),
 		Coverage: map[string]any{}, known: map[string]int{}, seen: map[string]bool{}}
 	r.findings = LoadFindings(property)
+	// replay files of earlier runs would only confuse
+	if old, err := filepath.Glob(filepath.Join(Root, "replays", property, "*.json")); err == nil {
+		for _, f := range old {
+			os.Remove(f)
+		}
+	}
 	return r
 }
 
